@@ -602,8 +602,12 @@ type Obligation struct {
 }
 
 type modelVar struct {
-	Name string
-	Term Term
+	Name   string
+	Term   Term
+	Path   string // access path in the contract's parameter names (entry state)
+	Role   string // scalar | ptr | len | elem | strlen | strbyte
+	GoType string // Go type of the path (scalar/ptr) or of the slice (len/elem)
+	Index  int
 }
 
 func (c *Ctx) oblige(o *Obligation) {
